@@ -1,7 +1,7 @@
 (* C07 — inclusion on BDD-encoded tree automata is exact; unimplemented selections throw. Statements only. *)
 From Coq Require Import List NArith Bool.
 Import ListNotations.
-From V Require Import Sem Prod Incl TrimDefs TrimProofs Lang InclDefs InclProofs DispatchTable.
+From V Require Import Sem Prod Incl TrimDefs TrimProofs Lang InclDefs InclProofs DispatchTable AntichainUp BuUpUnion.
 
 (* the verdict every implemented selection must report is exact, and equals the explicit encoding's (same function) *)
 Theorem C07_exact : forall v A B, incl_model v A B = true <-> (forall t, accepts A t -> accepts B t).
@@ -24,7 +24,17 @@ Proof. reflexivity. Qed.
 Theorem C07_dispatch_range : forall w, In w (impl_td ++ impl_bu ++ impl_expl) -> (w < 128)%N.
 Proof. intros w H. vm_compute in H. repeat (destruct H as [<-|H]; [reflexivity|]). destruct H. Qed.
 
+(* (A) the upward saturation with one macro-state per child position and antichain pruning is exact (shared with C01) ... *)
+Theorem C07_up_antichain_exact : forall A B, up_ac A B = true <-> forall t, accepts A t -> accepts B t.
+Proof. exact up_antichain_exact. Qed.
+(* ... whereas the post-image step as it was before the fix of defect D9 (union of all macro-states per child position)
+   answers "included" for A: a->q, b->q, f(q,q)->p   B: a->r1, b->r2, f(r1,r1)->s, f(r2,r2)->s *)
+Theorem C07_bu_up_union_refuted : up_union d9_A d9_B = true /\ incl_dec d9_A d9_B = false /\ up_ac d9_A d9_B = false.
+Proof. exact bu_up_union_refuted. Qed.
+
 Print Assumptions C07_exact.
+Print Assumptions C07_up_antichain_exact.
+Print Assumptions C07_bu_up_union_refuted.
 Print Assumptions C07_agree_with_explicit.
 Print Assumptions C07_gate_verdict.
 Print Assumptions C07_dispatch_scraped.
